@@ -397,7 +397,7 @@ def microed(rng, sched, density=0.6, keep_shutdown=False):
             if worker_open:
                 out.extend(["runw"] * worker_open)
             out.append("workerp")
-            worker_open = 2
+            worker_open = 3
         else:
             if p[0] == "worker" and worker_open:
                 out.extend(["runw"] * worker_open)
